@@ -100,22 +100,27 @@ inductive Stop
   | fault (what : String)
   deriving DecidableEq, Repr, Inhabited
 
+/-- environment state: what is left of the script, and `errno` -/
 structure St where
   script : List Res
   errno  : Int := 0
-  tr     : List Ev := []
   deriving Repr, Inhabited
 
+/-- outcome of a computation: value, new state and the native calls it made (in order) — or a `Stop` -/
 inductive Step (α : Type)
-  | ok (a : α) (st : St)
+  | ok (a : α) (st : St) (evs : List Ev)
   | stop (why : Stop)
 
+/-- state (script, errno) + write-only trace -/
 def M (α : Type) := St → Step α
 
-@[inline] def M.pure {α} (a : α) : M α := fun st => .ok a st
+@[inline] def M.pure {α} (a : α) : M α := fun st => .ok a st []
 @[inline] def M.bind {α β} (m : M α) (f : α → M β) : M β := fun st =>
   match m st with
-  | .ok a st' => f a st'
+  | .ok a st' evs =>
+    match f a st' with
+    | .ok b st'' evs' => .ok b st'' (evs ++ evs')
+    | .stop w => .stop w
   | .stop w => .stop w
 
 instance : Monad M where
@@ -128,10 +133,10 @@ def sys (c : Issued) : M Res := fun st =>
   | [] => .stop .exhausted
   | r :: s =>
     if r.sys = c.sys then
-      .ok r { script := s, errno := (match r.ret with | .err e => e | .ok _ => st.errno), tr := st.tr ++ [⟨c, r⟩] }
+      .ok r { script := s, errno := (match r.ret with | .err e => e | .ok _ => st.errno) } [⟨c, r⟩]
     else .stop (.mismatch c.sys r.sys)
 
-def getErrno : M Int := fun st => .ok st.errno st
+def getErrno : M Int := fun st => .ok st.errno st []
 def stopWith {α} (w : Stop) : M α := fun _ => .stop w
 
 /-! ## errors -/
@@ -148,7 +153,7 @@ def ioFromSystem (e : Int) : Int := (errnoTable.lookup e).getD errnoDefault
 
 /-- `p_error_set_error_p (error, p_error_get_io_from_system (p_error_get_last_net ()), p_error_get_last_net (), msg)` -/
 def errnoErr (msg : String) (stale : Bool := false) : M PErr := fun st =>
-  .ok { code := ioFromSystem st.errno, native := st.errno, msg := msg, stale := stale } st
+  .ok { code := ioFromSystem st.errno, native := st.errno, msg := msg, stale := stale } st []
 
 def invalidArg (msg : String := "Invalid input argument") : PErr :=
   { code := P_ERROR_IO_INVALID_ARGUMENT, native := 0, msg := msg }
@@ -401,8 +406,8 @@ def liftLoop (l : List Res → Int → LoopR) : M (Except PErr Res) := fun st =>
   let r := l st.script st.errno
   match r.fin with
   | .stop w => .stop w
-  | .done x => .ok (.ok x) { script := r.rest, errno := r.errno, tr := st.tr ++ r.evs }
-  | .fail e => .ok (.error e) { script := r.rest, errno := r.errno, tr := st.tr ++ r.evs }
+  | .done x => .ok (.ok x) { script := r.rest, errno := r.errno } r.evs
+  | .fail e => .ok (.error e) { script := r.rest, errno := r.errno } r.evs
 
 /-- `p_socket_io_condition_wait` -/
 def ioWait (s : Sock) (cond : Int) : M (Option PErr) := do
@@ -787,8 +792,8 @@ def CallResult.issued (r : CallResult) : List Issued := r.tr.map (·.call)
 
 /-- `call : Sock → Args → Script → Sock × Outcome × List Issued × Script` (or a `Stop`) -/
 def call (s : Sock) (c : Call) (script : Script) (errno : Int := 0) : Except Stop CallResult :=
-  match callM s c { script := script, errno := errno, tr := [] } with
-  | .ok (s', o) st => .ok { sock := s', out := o, tr := st.tr, rest := st.script, errno := st.errno }
+  match callM s c { script := script, errno := errno } with
+  | .ok (s', o) st evs => .ok { sock := s', out := o, tr := evs, rest := st.script, errno := st.errno }
   | .stop w => .error w
 
 /-- what each function returns for `socket == NULL` -/
@@ -846,9 +851,9 @@ structure WResult where
   errno : Int
   deriving Repr, Inhabited
 
-def runM {α} (m : M α) (script : Script) (errno : Int) : Except Stop (α × St) :=
-  match m { script := script, errno := errno, tr := [] } with
-  | .ok a st => .ok (a, st)
+def runM {α} (m : M α) (script : Script) (errno : Int) : Except Stop (α × St × List Ev) :=
+  match m { script := script, errno := errno } with
+  | .ok a st evs => .ok (a, st, evs)
   | .stop w => .error w
 
 /-- one API call in a world of sockets.  A slot that holds no socket stands for a NULL pointer. -/
@@ -857,36 +862,36 @@ def wstep (w : World) (c : WCall) (script : Script) (errno : Int := 0) : Except 
   | .new slot f t p =>
     match runM (new f t p) script errno with
     | .error e => .error e
-    | .ok ((so, e), st) =>
+    | .ok ((so, e), st, evs) =>
       let w' := match so with | some s => w.set slot s | none => w
-      .ok { world := w', out := { ret := b2i so.isSome, err := e, sock := so }, tr := st.tr, rest := st.script, errno := st.errno }
+      .ok { world := w', out := { ret := b2i so.isSome, err := e, sock := so }, tr := evs, rest := st.script, errno := st.errno }
   | .newFromFd slot fd =>
     match runM (newFromFd fd) script errno with
     | .error e => .error e
-    | .ok ((so, e), st) =>
+    | .ok ((so, e), st, evs) =>
       let w' := match so with | some s => w.set slot s | none => w
-      .ok { world := w', out := { ret := b2i so.isSome, err := e, sock := so }, tr := st.tr, rest := st.script, errno := st.errno }
+      .ok { world := w', out := { ret := b2i so.isSome, err := e, sock := so }, tr := evs, rest := st.script, errno := st.errno }
   | .on slot c newSlot =>
     match w.get slot with
     | none => .ok { world := w, out := nullCall c, tr := [], rest := script, errno := errno }
     | some s =>
       match runM (callM s c) script errno with
       | .error e => .error e
-      | .ok ((s', o), st) =>
+      | .ok ((s', o), st, evs) =>
         let w' := w.set slot s'
         let w' := match o.sock with | some ns => w'.set newSlot ns | none => w'
-        .ok { world := w', out := o, tr := st.tr, rest := st.script, errno := st.errno }
+        .ok { world := w', out := o, tr := evs, rest := st.script, errno := st.errno }
   | .free slot =>
     match w.get slot with
     | none => .ok { world := w, out := voidOut, tr := [], rest := script, errno := errno }
     | some s =>
       match runM (free s) script errno with
       | .error e => .error e
-      | .ok (_, st) => .ok { world := w.del slot, out := voidOut, tr := st.tr, rest := st.script, errno := st.errno }
+      | .ok (_, st, evs) => .ok { world := w.del slot, out := voidOut, tr := evs, rest := st.script, errno := st.errno }
   | .initOnce =>
     match runM initOnce script errno with
     | .error e => .error e
-    | .ok (_, st) => .ok { world := w, out := voidOut, tr := st.tr, rest := st.script, errno := st.errno }
+    | .ok (_, st, evs) => .ok { world := w, out := voidOut, tr := evs, rest := st.script, errno := st.errno }
 
 /-! ## kernel side (trusted contract, used only to state integrity / close-on-exec / descriptor balance) -/
 
